@@ -8,7 +8,7 @@
    translate/lu_scale.py decides on every run which of the two the C source contains. *)
 Require Import List Arith QArith Qcanon.
 Import ListNotations.
-Require Import LV.Base.CField LV.Base.QcI LV.Lin.MatL LV.Lin.LuModel LV.Lin.LuQI LV.Lin.LsSpec.
+Require Import LV.Base.CField LV.Base.QcI LV.Lin.MatL LV.Lin.LuModel LV.Lin.LuQI LV.Lin.LsSpec LV.Lin.LuPartial LV.Lin.LsLu.
 
 Definition scale_max (m : Qc) : Qc := m.
 Definition scale_recip (m : Qc) : Qc := (/ m)%Qc.
@@ -24,3 +24,21 @@ Definition q2_minverse_recip := minverse QIF Qc qi_nrm Qcmult Qc_ltb 0%Qc scale_
 
 Definition qi_isz (x : qi) : bool := qi_eqb x qi0.
 Definition q2_ls_solve := ls_solve QIF qi_isz.
+
+(* LuPartial (what the C code returns when a pivot is exactly zero) at Q[i], both variants *)
+Definition q2_lu_c_max := lu_c QIF Qc qi_nrm Qcmult Qc_ltb 0%Qc scale_max qi_isz.
+Definition q2_lu_c_recip := lu_c QIF Qc qi_nrm Qcmult Qc_ltb 0%Qc scale_recip qi_isz.
+Definition q2_mldivide_c_max := mldivide_c QIF Qc qi_nrm Qcmult Qc_ltb 0%Qc scale_max qi_isz.
+Definition q2_mldivide_c_recip := mldivide_c QIF Qc qi_nrm Qcmult Qc_ltb 0%Qc scale_recip qi_isz.
+Definition q2_mrdivide_c_max := mrdivide_c QIF Qc qi_nrm Qcmult Qc_ltb 0%Qc scale_max qi_isz.
+Definition q2_mrdivide_c_recip := mrdivide_c QIF Qc qi_nrm Qcmult Qc_ltb 0%Qc scale_recip qi_isz.
+Definition q2_minverse_c_max := minverse_c QIF Qc qi_nrm Qcmult Qc_ltb 0%Qc scale_max qi_isz.
+Definition q2_minverse_c_recip := minverse_c QIF Qc qi_nrm Qcmult Qc_ltb 0%Qc scale_recip qi_isz.
+(* outcome as data for the driver: None = finite run, Some j = first zero pivot at column j < n-1 *)
+Definition lu_c_stop (r : lu_outcome QIF Qc) : option nat :=
+  match r with LuFinite _ _ _ => None | LuNonFinite _ _ j _ => Some j end.
+Definition cdet_opt (d : cdet QIF) : option qi :=
+  match d with DetFin x => Some x | DetNaN => None end.
+
+(* the least-squares oracle on the LU model (LsLu.v), reciprocal row scale *)
+Definition q2_ls_lu := ls_lu QIF Qc qi_nrm Qcmult Qc_ltb 0%Qc scale_recip qi_isz.
